@@ -1,7 +1,394 @@
-// correspondence + search binary for property C16 (stub)
+// C16 — text parsers never abort and accept only valid values.
+// Correspondence: every generated string is given to the real `TryFrom<&str>` impls under
+// catch_unwind and printed as `parse-<type> <hex utf8>` → `ok <value>` / `err` / `panic`; every
+// value's `Display` as `print-<type> <value>` → hex; the Unicode tables the parsers depend on as
+// `upper|lower|ws <code point>`.
+// Search oracle (independent of the Lean model): no parser ever panics; an accepted observation has
+// 2 pocket cards, 0/3/4/5 board cards, no card in both; an accepted hole has 2 cards; the printed
+// form of every value parses back to an equal value.
+use robopoker::cards::card::Card;
+use robopoker::cards::hand::Hand;
+use robopoker::cards::hole::Hole;
+use robopoker::cards::observation::Observation;
+use robopoker::cards::street::Street;
+use robopoker::clustering::abstraction::Abstraction;
+use robopoker::gameplay::action::Action;
+use robopoker::gameplay::ply::Turn;
+use rpharness::*;
+
+fn hex(s: &str) -> String {
+    if s.is_empty() { return "-".into(); }
+    s.bytes().map(|b| format!("{b:02x}")).collect()
+}
+fn show_action(a: &Action) -> String {
+    match a {
+        Action::Fold => "fold".into(),
+        Action::Check => "check".into(),
+        Action::Call(x) => format!("call:{x}"),
+        Action::Raise(x) => format!("raise:{x}"),
+        Action::Shove(x) => format!("shove:{x}"),
+        Action::Blind(x) => format!("blind:{x}"),
+        Action::Draw(h) => format!("draw:{}", u64::from(*h)),
+    }
+}
+fn show_turn(t: &Turn) -> String {
+    match t {
+        Turn::Terminal => "terminal".into(),
+        Turn::Chance => "chance".into(),
+        Turn::Choice(n) => format!("choice:{n}"),
+    }
+}
+fn show_abs(a: &Abstraction) -> String {
+    let v = match a { Abstraction::Percent(_) => 0, Abstraction::Learned(_) => 1, Abstraction::Preflop(_) => 2 };
+    format!("{}:{}", v, u64::from(*a))
+}
+fn street_of(n: usize) -> Street { [Street::Pref, Street::Flop, Street::Turn, Street::Rive][n] }
+
+const TYPES: [&str; 8] = ["card", "hand", "hole", "obs", "street", "abs", "action", "turn"];
+
+/// run one real parser on `s`; returns the canonical outcome line
+fn parse(ty: &str, s: &str, run: &mut Run) -> String {
+    let owned = s.to_string();
+    let r: Option<Result<String, ()>> = match ty {
+        "card" => catch(move || Card::try_from(owned.as_str()).map(|c| u8::from(c).to_string()).map_err(|_| ())),
+        "hand" => catch(move || Hand::try_from(owned.as_str()).map(|h| u64::from(h).to_string()).map_err(|_| ())),
+        "hole" => catch(move || Hole::try_from(owned.as_str()).map(|h| u64::from(Hand::from(h)).to_string()).map_err(|_| ())),
+        "obs" => catch(move || Observation::try_from(owned.as_str()).map(|o| format!("{} {}", u64::from(*o.pocket()), u64::from(*o.public()))).map_err(|_| ())),
+        "street" => catch(move || Street::try_from(owned.as_str()).map(|s| (s as isize).to_string()).map_err(|_| ())),
+        "abs" => catch(move || Abstraction::try_from(owned.as_str()).map(|a| show_abs(&a)).map_err(|_| ())),
+        "action" => catch(move || Action::try_from(owned.as_str()).map(|a| show_action(&a)).map_err(|_| ())),
+        "turn" => catch(move || Turn::try_from(owned.as_str()).map(|t| show_turn(&t)).map_err(|_| ())),
+        _ => unreachable!(),
+    };
+    run.evaluations += 1;
+    run.spec_checked += 1;
+    let out = match r {
+        None => {
+            run.fail(&format!("parser-panics:{ty}"), &format!("{ty} {:?}", s), "Ok or Err", "panic");
+            "panic".to_string()
+        }
+        Some(Err(())) => "err".to_string(),
+        Some(Ok(v)) => {
+            // well-formedness of what was accepted
+            match ty {
+                "obs" => {
+                    let mut it = v.split(' ');
+                    let p: u64 = it.next().unwrap().parse().unwrap();
+                    let b: u64 = it.next().unwrap().parse().unwrap();
+                    let full = (1u64 << 52) - 1;
+                    if p.count_ones() != 2 || ![0, 3, 4, 5].contains(&b.count_ones()) || p & b != 0 || (p | b) & !full != 0 {
+                        run.fail("accepted-observation-malformed", &format!("{:?}", s), "2 pocket cards, 0/3/4/5 board cards, disjoint", &v);
+                    }
+                }
+                "hole" => {
+                    let h: u64 = v.parse().unwrap();
+                    if h.count_ones() != 2 || h >> 52 != 0 { run.fail("accepted-hole-malformed", &format!("{:?}", s), "two cards", &v); }
+                }
+                "card" => {
+                    let c: u8 = v.parse().unwrap();
+                    if c >= 52 { run.fail("accepted-card-malformed", &format!("{:?}", s), "0..52", &v); }
+                }
+                "hand" => {
+                    let h: u64 = v.parse().unwrap();
+                    if h >> 52 != 0 { run.fail("accepted-hand-malformed", &format!("{:?}", s), "cards below 52", &v); }
+                }
+                _ => {}
+            }
+            format!("ok {v}")
+        }
+    };
+    run.line(&format!("parse-{ty} {}", hex(s)), &out);
+    run.count(&format!("parse-{ty}:{}", &out[..out.find(' ').unwrap_or(out.len())]));
+    out
+}
+fn parse_all(s: &str, run: &mut Run) {
+    for ty in TYPES { parse(ty, s, run); }
+    run.distinct(&s.to_string());
+}
+/// print a value, parse the printing with its own parser, compare
+fn roundtrip(ty: &str, value_op: &str, printed: Option<String>, want: &str, run: &mut Run) {
+    match printed {
+        None => {
+            run.line(&format!("print-{ty} {value_op}"), "panic");
+            run.fail(&format!("printer-panics:{ty}"), value_op, "a string", "panic");
+        }
+        Some(p) => {
+            run.line(&format!("print-{ty} {value_op}"), &hex(&p));
+            let got = parse(ty, &p, run);
+            run.spec_checked += 1;
+            if got != format!("ok {want}") {
+                run.fail(&format!("print-parse-roundtrip:{ty}"), &format!("{value_op} printed {:?}", p), &format!("ok {want}"), &got);
+            }
+            run.distinct(&(ty.to_string(), value_op.to_string()));
+        }
+    }
+    run.count(&format!("roundtrip-{ty}"));
+}
+
 fn main() {
-    let a = rpharness::args();
-    let mut run = rpharness::Run::new(&a.out);
-    run.rule = "stub".into();
+    let a = args();
+    let mut rng = Rng::new(a.seed);
+    let mut run = Run::new(&a.out);
+    quiet_panics();
+    let deep = a.thorough();
+    let full: u64 = (1u64 << 52) - 1;
+
+    // ------------------------------------------------------------ Unicode tables seen by the parsers
+    let ws25: Vec<char> = (0u32..=0x10FFFF).filter_map(char::from_u32).filter(|c| c.is_whitespace()).collect();
+    run.spec_checked += 1;
+    if ws25.len() != 25 { run.fail("white-space-count", "char::is_whitespace", "25 code points", &format!("{}", ws25.len())); }
+    let specials: Vec<u32> = vec![0xdf, 0x131, 0x149, 0x17f, 0x1f0, 0x1e96, 0x1e97, 0x1e98, 0x1e99, 0x1e9a, 0xfb00, 0xfb01, 0xfb02, 0xfb03, 0xfb04, 0xfb05, 0xfb06, 0x130, 0x212a, 0x3a3, 0x3c3, 0x3c2, 0xe9, 0xc9, 0x2660, 0x2663, 0x2665, 0x2666, 0x1F600, 0x301];
+    // projection: ASCII code points as they are, every maximal run of non-ASCII characters as one `128`
+    let proj = |it: &mut dyn Iterator<Item = char>| {
+        let mut out: Vec<String> = vec![];
+        for c in it {
+            let t = if (c as u32) < 128 { (c as u32).to_string() } else { "128".to_string() };
+            if t == "128" && out.last().map(|x| x == "128").unwrap_or(false) { continue; }
+            out.push(t);
+        }
+        out.join(" ")
+    };
+    for cp in 0u32..=0x10FFFF {
+        let pick = deep || cp < 0x3100 || specials.contains(&cp) || cp % 61 == 0 || (0xfa00..0xfc00).contains(&cp);
+        if !pick { continue; }
+        if let Some(c) = char::from_u32(cp) {
+            run.line(&format!("upper {cp}"), &proj(&mut c.to_uppercase()));
+            run.line(&format!("lower {cp}"), &proj(&mut c.to_lowercase()));
+            run.line(&format!("ws {cp}"), if c.is_whitespace() { "1" } else { "0" });
+            run.count_n("unicode-table-lines", 3);
+        }
+    }
+
+    // ------------------------------------------------------------ print → parse round trips
+    // cards: all 52
+    for c in 0u8..52 {
+        let card = Card::from(c);
+        roundtrip("card", &c.to_string(), catch(move || card.to_string()), &c.to_string(), &mut run);
+    }
+    // streets
+    for s in 0..4usize {
+        let st = street_of(s);
+        roundtrip("street", &s.to_string(), catch(move || st.to_string()), &s.to_string(), &mut run);
+    }
+    // turns
+    let mut turns = vec![Turn::Terminal, Turn::Chance];
+    for n in 0..300usize { turns.push(Turn::Choice(n)); }
+    for k in 0..64u32 { turns.push(Turn::Choice((1u64 << k) as usize)); turns.push(Turn::Choice(((1u128 << (k + 1)) - 1) as usize)); }
+    for _ in 0..(if deep { 20000 } else { 2000 }) { turns.push(Turn::Choice((rng.next() >> rng.below(64)) as usize)); }
+    for t in turns {
+        roundtrip("turn", &show_turn(&t), catch(move || t.to_string()), &show_turn(&t), &mut run);
+    }
+    // abstractions: all 542 buckets, then every (street, index < 4096)
+    let counts = [169usize, robopoker::verif::KMEANS_FLOP_CLUSTER_COUNT, robopoker::verif::KMEANS_TURN_CLUSTER_COUNT, robopoker::verif::KMEANS_EQTY_CLUSTER_COUNT];
+    for s in 0..4usize {
+        for i in 0..4096usize {
+            if i >= counts[s] && !deep && i % 7 != 0 && i < 4000 { continue; }
+            let ab = Abstraction::from((street_of(s), i));
+            roundtrip("abs", &u64::from(ab).to_string(), catch(move || ab.to_string()), &show_abs(&ab), &mut run);
+            if i < counts[s] { run.count("roundtrip-abs(the 542 buckets)"); }
+        }
+    }
+    // abstraction words whose hash field is not the constructor's: printing keeps street and index only
+    for _ in 0..200 {
+        let n = (rng.next() & ((1 << 56) - 1)) | (rng.below(6) << 56);
+        let p = catch(move || Abstraction::from(n).to_string());
+        run.line(&format!("print-abs {n}"), &p.map(|x| hex(&x)).unwrap_or("panic".into()));
+        run.count("print-abs(arbitrary word)");
+    }
+    // actions: fold, check, every i16 amount of the four chip kinds, every draw of 0..3 cards, some larger draws
+    {
+        let mut acts = vec![Action::Fold, Action::Check];
+        for x in i16::MIN..=i16::MAX {
+            acts.push(Action::Call(x)); acts.push(Action::Raise(x)); acts.push(Action::Shove(x)); acts.push(Action::Blind(x));
+        }
+        acts.push(Action::Draw(Hand::from(0u64)));
+        for x in 0..52u64 {
+            acts.push(Action::Draw(Hand::from(1u64 << x)));
+            for y in (x + 1)..52 {
+                acts.push(Action::Draw(Hand::from(1u64 << x | 1 << y)));
+                for z in (y + 1)..52 { acts.push(Action::Draw(Hand::from(1u64 << x | 1 << y | 1 << z))); }
+            }
+        }
+        for _ in 0..2000 { let k = 4 + rng.below(49) as usize; acts.push(Action::Draw(Hand::from(rng.cards(k, full)))); }
+        for act in acts {
+            roundtrip("action", &show_action(&act), catch(move || act.to_string()), &show_action(&act), &mut run);
+        }
+    }
+    // hands / holes / observations
+    {
+        let nh = if deep { 100_000 } else { 20_000 };
+        for i in 0..nh {
+            let h = match i { 0 => 0, 1 => full, _ => { let k = rng.below(if i % 2 == 0 { 8 } else { 53 }) as usize; rng.cards(k, full) } };
+            let hand = Hand::from(h);
+            roundtrip("hand", &h.to_string(), catch(move || hand.to_string()), &h.to_string(), &mut run);
+        }
+        for i in 0..52u64 {
+            for j in (i + 1)..52 {
+                let h = 1u64 << i | 1 << j;
+                let hole = Hole::from(Hand::from(h));
+                // Hole has no print op of its own in the model: its Display is the hand's
+                let p = catch(move || hole.to_string());
+                if let Some(p) = p {
+                    let got = parse("hole", &p, &mut run);
+                    run.spec_checked += 1;
+                    if got != format!("ok {h}") { run.fail("print-parse-roundtrip:hole", &format!("hole {h} printed {:?}", p), &format!("ok {h}"), &got); }
+                } else { run.fail("printer-panics:hole", &format!("{h}"), "a string", "panic"); }
+                run.count("roundtrip-hole(all 1326)");
+                // all pre-flop observations
+                let o = Observation::from((Hand::from(h), Hand::from(0u64)));
+                roundtrip("obs", &format!("{h} 0"), catch(move || o.to_string()), &format!("{h} 0"), &mut run);
+            }
+        }
+        let no = if deep { 400_000 } else { 40_000 };
+        for nb in [3usize, 4, 5] {
+            for _ in 0..no {
+                let p = rng.cards(2, full);
+                let b = rng.cards(nb, full & !p);
+                let o = Observation::from((Hand::from(p), Hand::from(b)));
+                roundtrip("obs", &format!("{p} {b}"), catch(move || o.to_string()), &format!("{p} {b}"), &mut run);
+            }
+        }
+        // observations with 1 or 2 board cards exist as values but are not printable-and-parsable: shown, not required
+        for nb in [1usize, 2] {
+            for _ in 0..50 {
+                let p = rng.cards(2, full);
+                let b = rng.cards(nb, full & !p);
+                let o = Observation::from((Hand::from(p), Hand::from(b)));
+                let s = o.to_string();
+                run.line(&format!("print-obs {p} {b}"), &hex(&s));
+                parse("obs", &s, &mut run);
+                run.count("obs-with-1-or-2-board-cards(rejected by design)");
+            }
+        }
+    }
+
+    // ------------------------------------------------------------ hand-written corner cases → every parser
+    let mut corner: Vec<String> = vec![
+        "", " ", "  ", "\t", "\n", "\r\n", " \t\n ", "é", "Asé", "éAs", "Aé", "és", "A\u{301}s", "As\u{301}", "😀", "A😀", "😀s", "A♠", "a♠", "T♥", "t♦", "J♣", "♠A", "♠♠",
+        "As", "as", "AS", "aS", " As ", "A s", "As Ks", "AsKs", "AsAs", "As As", "AsK", "A", "s", "1s", "0s", "10s", "Ax", "Zs",
+        "AsKs ~ AsKd2c", "AsKs ~ 2c3c4c", "AsKs~2c3c4c", "AsKs ~ 2c 3c 4c", "As Ks ~ 2c3c4c", "AsKs ~ ", "AsKs ~", "AsKs", "~", " ~ ", "~ AsKs", "AsKs ~ 2c", "AsKs ~ 2c3c", "AsKs ~ 2c3c4c5c6c7c",
+        "AsKs ~ 2c3c4c ~ 5c", "AsKs ~~ 2c3c4c", "AsKsQs ~ 2c3c4c", "As ~ 2c3c4c", "AsAs ~ 2c3c4c", "AsKs ~ 2c2c3c4c", "AsKs ~ KsQd2c", "AsKs ~ xx2c3c4c", "AsKs ~ 2c3c4c xx", "AsKs xx ~ 2c3c4c", "AsKsx ~ 2c3c4c",
+        "asks ~ 2C3C4C", "A♠K♠ ~ 2♣3♣4♣", "AsKs\u{a0}~\u{2003}2c3c4c", "\u{3000}AsKs ~ 2c3c4c\u{3000}",
+        "preflop", "flop", "turn", "river", "P", "F", "T", "R", "p", "f", "t", "r", "x", "pf", " flop", "ﬀ", "ﬁsh", "ﬂop", "ẗurn", "ẗ", "ſ", "ǰ", "ß", "ŉ", "\u{212a}", "Řiver", "ṙ",
+        "P::00", "F::1a", "T::ff", "R::64", "f::1A", "F::", "::", "::1a", "F", "F:1a", "F:::1a", "F::1a::2", "F::zz", "F::-1", "F::+1a", "F:: 1a", " F::1a ", "F ::1a", "F::ffffffffffffffff", "F::10000000000000000",
+        "F::0000000000000000000000001a", "F::fff", "F::1000", "ﬀ::01", "ẗ::1", "X::01", "F::é", "F::١",
+        "XX", "??", "P0", "P1", "P5", "P+5", "P-1", "P-0", "P 5", " P5", "P5 ", "P", "P+", "P-", "Pé", "P٣", "PP", "p5", "X", "XXX", "?", "P18446744073709551615", "P18446744073709551616", "P99999999999999999999999", "P00000000000000000000000000005", "P0x5", "P5é",
+        "FOLD", "CHECK", "fold", "Check", "check ", " fold", "FOLD 5", "CHECK x", "CALL", "CALL ", "CALL 5", "CALL  5", "call 5", "Call\t5", "CALL\u{2003}5", "CALL 5 6", "CALL x", "CALL 5x", "CALL +5", "CALL -5", "CALL -0", "CALL --5", "CALL +", "CALL -",
+        "CALL 32767", "CALL 32768", "CALL -32768", "CALL -32769", "CALL 99999999999999999999", "CALL 0005", "CALL 5.0", "CALL ５", "RAISE 10", "SHOVE 100", "BLIND 1", "BLIND", "RAISE", "SHOVE", "ſhove 5", "raiſe 7", "blınd 1", "ſHOVE 5", "ﬁold", "checK", "chec\u{212a}",
+        "DEAL", "DEAL ", "DEAL  AsKsQd", "DEAL As Ks Qd", "DEAL AsKs Qd", "deal as", "DEAL xx", "DEAL As xx", "DEAL AsAs", "DEAL As As", "DEAL é", "DEAL Asé", "DEAL ~", "DEAL 2c3c4c5c6c", "DEALAs", "DRAW As", "BET 5", "ALLIN",
+        "\u{feff}As", "As\0", "\0", "A\u{200b}s", "As\u{85}", "\u{85}As\u{85}", "\u{1680}", "\u{2028}As\u{2029}",
+    ].into_iter().map(String::from).collect();
+    for w in &ws25 {
+        corner.push(w.to_string());
+        corner.push(format!("{w}As{w}"));
+        corner.push(format!("A{w}s"));
+        corner.push(format!("AsKs{w}~{w}2c3c4c"));
+        corner.push(format!("CALL{w}5"));
+        corner.push(format!("{w}CALL{w}{w}5{w}"));
+        corner.push(format!("{w}P5"));
+        corner.push(format!("P5{w}"));
+        corner.push(format!("{w}F::1a{w}"));
+        corner.push(format!("F{w}::1a"));
+        corner.push(format!("{w}flop"));
+        corner.push(format!("As{w}Ks"));
+        corner.push(format!("DEAL{w}As{w}Ks"));
+    }
+    for s in &corner { parse_all(s, &mut run); run.count("input:corner-case"); }
+
+    // ------------------------------------------------------------ grammar-guided mutations → every parser
+    let alphabet: Vec<char> = {
+        let mut v: Vec<char> = "23456789TJQKAtjqkacdhsCDHSPFRXpfrx?~:+-0159afAFzZ _.,/".chars().collect();
+        v.extend(['é', 'ſ', 'ı', 'ﬀ', 'ẗ', '♠', '♣', '♥', '♦', '\u{212a}', '\u{301}', '😀', 'ß', '٣', '\u{feff}', '\0', '\u{7f}', '\u{80}', '\u{7ff}', '\u{800}', '\u{ffff}', '\u{10000}', '\u{10ffff}']);
+        v.extend(ws25.iter().copied());
+        v
+    };
+    let mut seeds: Vec<String> = vec![];
+    for _ in 0..60 { seeds.push(Card::from(rng.below(52) as u8).to_string()); }
+    for _ in 0..60 { let k = rng.below(8) as usize; seeds.push(Hand::from(rng.cards(k, full)).to_string()); }
+    for _ in 0..40 { let k = rng.below(6) as usize; let h = Hand::from(rng.cards(k, full)); seeds.push(Vec::<Card>::from(h).iter().map(|c| c.to_string()).collect::<Vec<_>>().join(" ")); }
+    for nb in [0usize, 3, 4, 5] {
+        for _ in 0..40 {
+            let p = rng.cards(2, full); let b = rng.cards(nb, full & !p);
+            seeds.push(Observation::from((Hand::from(p), Hand::from(b))).to_string());
+        }
+    }
+    for s in 0..4 { seeds.push(street_of(s).to_string()); seeds.push(street_of(s).to_string().to_uppercase()); }
+    for _ in 0..60 { let s = rng.below(4) as usize; seeds.push(Abstraction::from((street_of(s), rng.below(300) as usize)).to_string()); }
+    for _ in 0..30 { seeds.push(Turn::Choice(rng.below(1000) as usize).to_string()); }
+    seeds.push("XX".into()); seeds.push("??".into());
+    for _ in 0..80 {
+        let x = rng.range(-200, 32767) as i16;
+        seeds.push(match rng.below(7) { 0 => Action::Fold, 1 => Action::Check, 2 => Action::Call(x), 3 => Action::Raise(x), 4 => Action::Shove(x), 5 => Action::Blind(x), _ => { let k = rng.below(4) as usize; Action::Draw(Hand::from(rng.cards(k, full))) } }.to_string());
+    }
+    for s in &seeds { parse_all(s, &mut run); run.count("input:valid-seed"); }
+    let nmut = if deep { 400_000 } else { 60_000 };
+    let mut seen = std::collections::HashSet::new();
+    let mut made = 0;
+    while made < nmut {
+        let seed = &seeds[rng.below(seeds.len() as u64) as usize];
+        let mut cs: Vec<char> = seed.chars().collect();
+        let nedits = if rng.chance(4, 5) { 1 } else { 2 + rng.below(2) };
+        let mut kind = "";
+        for _ in 0..nedits {
+            let pos = rng.below(cs.len() as u64 + 1) as usize;
+            let ch = alphabet[rng.below(alphabet.len() as u64) as usize];
+            match rng.below(8) {
+                0 => { cs.insert(pos, ch); kind = "insert"; }
+                1 if !cs.is_empty() => { cs.remove(pos.min(cs.len() - 1)); kind = "delete"; }
+                2 if !cs.is_empty() => { let p = pos.min(cs.len() - 1); cs[p] = ch; kind = "replace"; }
+                3 if !cs.is_empty() => { let p = pos.min(cs.len() - 1); let c = cs[p]; cs.insert(p, c); kind = "duplicate"; }
+                4 if cs.len() >= 2 => { let p = pos.min(cs.len() - 2); cs.swap(p, p + 1); kind = "swap"; }
+                5 => { cs.truncate(pos); kind = "truncate"; }
+                6 if !cs.is_empty() => {
+                    let p = pos.min(cs.len() - 1);
+                    let c = cs[p];
+                    cs[p] = if c.is_lowercase() { c.to_uppercase().next().unwrap() } else { c.to_lowercase().next().unwrap() };
+                    kind = "case";
+                }
+                _ => {
+                    // splice a piece of another valid string (duplicates / overlaps)
+                    let other: Vec<char> = seeds[rng.below(seeds.len() as u64) as usize].chars().collect();
+                    if !other.is_empty() {
+                        let a = rng.below(other.len() as u64) as usize;
+                        let b = (a + 1 + rng.below(4) as usize).min(other.len());
+                        for (k, c) in other[a..b].iter().enumerate() { cs.insert((pos + k).min(cs.len()), *c); }
+                    }
+                    kind = "splice";
+                }
+            }
+        }
+        let s: String = cs.into_iter().collect();
+        if !seen.insert(s.clone()) { made += 1; continue; }
+        parse_all(&s, &mut run);
+        run.count(&format!("input:mutation-{}{}", if nedits > 1 { "multi" } else { kind }, ""));
+        let mb = s.chars().map(|c| c.len_utf8()).max().unwrap_or(0);
+        run.count(&format!("input:max-utf8-len={mb}"));
+        made += 1;
+    }
+    // random strings over the alphabet
+    for _ in 0..(if deep { 100_000 } else { 15_000 }) {
+        let n = rng.below(12) as usize;
+        let s: String = (0..n).map(|_| alphabet[rng.below(alphabet.len() as u64) as usize]).collect();
+        if seen.insert(s.clone()) { parse_all(&s, &mut run); run.count("input:random-over-alphabet"); }
+    }
+    // huge numbers
+    for _ in 0..2000 {
+        let digits: String = (0..(1 + rng.below(30))).map(|_| char::from(b'0' + rng.below(10) as u8)).collect();
+        let sign = ["", "", "+", "-"][rng.below(4) as usize];
+        for s in [format!("CALL {sign}{digits}"), format!("P{sign}{digits}"), format!("F::{sign}{digits}"), format!("RAISE {sign}{digits}")] {
+            if seen.insert(s.clone()) { parse_all(&s, &mut run); run.count("input:number-boundary"); }
+        }
+    }
+    for v in [32766i64, 32767, 32768, 32769, -32767, -32768, -32769, 65535, 65536, -65536, 0, -0] {
+        for kw in ["CALL", "RAISE", "SHOVE", "BLIND"] {
+            let s = format!("{kw} {v}");
+            if seen.insert(s.clone()) { parse_all(&s, &mut run); run.count("input:number-boundary"); }
+        }
+    }
+
+    run.exhaustive = false;
+    run.rule = format!("every string goes to the 8 real parsers under catch_unwind (never-panics oracle, well-formedness of accepted observation/hole/card/hand). Strings: {} hand-written corner cases (empty, whitespace-only, each of the 25 White_Space code points in 13 positions, 2/3/4-byte and combining characters, case-mapping specials such as U+017F/U+0131/U+FB00, duplicates and overlaps, number boundaries), {} valid seeds, {} grammar-guided mutations (insert/delete/replace/duplicate/swap/truncate/case/splice; 1 edit in 80%, 2-3 otherwise), random strings over the same alphabet, number-boundary strings. Round trips print->parse: all 52 cards, 4 streets, 2 + {} turns, all 542 buckets and (street, index<4096) abstractions, fold/check + 4 x 65,536 chip actions (all i16) + all draws of 0..3 cards + 2,000 larger draws, all 1,326 holes and pre-flop observations, {} sampled flop/turn/river observations each, {} hands. Unicode tables of the model instantiation compared code point by code point ({}). distinct = distinct strings / values",
+        corner.len(), seeds.len(), nmut, if deep { 20_428 } else { 2_428 }, if deep { 400_000 } else { 40_000 }, if deep { 100_000 } else { 20_000 },
+        if deep { "all 1,112,064 scalar values" } else { "all below U+3100, U+FA00..U+FC00, the case-mapping specials, every 61st elsewhere" });
     run.finish();
 }
